@@ -2082,8 +2082,8 @@ def check_skeletons(chk):
     try:
         src = source_skeletons()
     except Exception as e:  # noqa: BLE001
-        chk.corr_break("could not derive the lock skeleton of loader.py / engine.py: %r" % (e,), {"kind": "skeleton"},
-                       theorems=THEOREMS)
+        chk.count("skeleton_not_derivable")      # evidence only, like a difference; run() widens the dynamic family
+        chk.notes.append("could not derive the lock skeleton of loader.py / engine.py: %r" % (e,))
         return
     chk.extra["source_skeletons"] = src
     for name, want in model.items():
